@@ -80,7 +80,10 @@ PROPS = {
         quick=[S('flat', ops=['start', 'pe:1', 'pe:2', 'pe:4', 'eq:3', 'xq', 'xs'], submits=1, guards=1, qbound=2),
                S('hier2', ops=['start', 'pe:1', 'pe:3', 'eq:1', 'xq'], submits=1, guards=1, qbound=2),
                S('hier2', ops=['start', 'pe:1', 'pe:2'], submits=1, guards=2, qbound=1, cfgs=['b', 'b11', 'm', 'mc']),
-               S('flat', ops=['start', 'pe:1', 'pe:2', 'pe:3', 'pe:4'], submits=1, guards=1, qbound=2, submit_in_nt=True)],
+               S('flat', ops=['start', 'pe:1', 'pe:2', 'pe:3', 'pe:4'], submits=1, guards=1, qbound=2, submit_in_nt=True),
+               # single step / drain on a machine whose table has completion rows (the step that handles an event is
+               # followed by completion processing, which must not drag the rest of the queue along)
+               S('compl', ops=['start', 'pe:1', 'pe:2', 'pe:3', 'eq:4', 'eq:1', 'xs', 'xq'], qbound=2)],
         thorough=[S('flat', ops=['start', 'pe:1', 'pe:2', 'pe:3', 'pe:4', 'eq:1', 'eq:3', 'xq', 'xs'], submits=2, guards=1, qbound=2),
                   S('hier2', ops=['start', 'pe:1', 'pe:2', 'pe:3', 'pe:4', 'eq:1', 'xq', 'xs'], submits=1, guards=2, qbound=2),
                   S('ortho', ops=['start', 'pe:1', 'pe:2', 'pe:3', 'eq:1', 'xq', 'xs'], submits=2, guards=1, qbound=2),
